@@ -189,6 +189,29 @@ reg(
     "DESIGN.md §3 C17",
 )
 
+reg(
+    "C15",
+    "exploration",
+    "Hypothesis-generated nested MetaModule recipes; round-trip oracle on snapshot + independent chunk-level structure checks",
+    "MetaModules nested up to depth 2 (quick) / 4 (thorough) with generated embedded projects, user-controller counts 0..96, mappings onto every "
+    "controller kind and dangling targets, labels, re-derived value types and values assigned through user controllers are saved and loaded in "
+    "both contexts: snapshot equality (embedded project recursively, mappings, labels, stored values, attached set), 5+n CVALs / 8(5+n) CMID "
+    "bytes / no label chunk beyond the count by independent chunk parsing, and a byte-identical second cycle.",
+    "Stored (not user-visible) values of user controllers are claimed; mapping controller = 0-based index as the library resolves it.",
+    "DESIGN.md §3 C15",
+)
+reg(
+    "C16",
+    "exploration",
+    "Hypothesis-generated Sampler recipes and legacy byte variants; round-trip oracle + independent fixed-offset decoder of the written records",
+    "Generated samplers (slot subsets, arbitrary PCM bytes, all formats/channels, every sample and envelope field over its width, boundary "
+    "probes for 12/13/255/256/300 points, note maps, editor fields, effect) are saved, loaded and cloned in both contexts; the written instrument "
+    "record, sample records and envelope chunks are decoded independently at their documented offsets and compared with the object; legacy "
+    "variants (foreign signature, envelope chunks removed) must load with independently computed converted envelopes and survive save/load.",
+    "Record layout from the struct comments in sampler.py + docs offsets.",
+    "DESIGN.md §3 C16",
+)
+
 NOT_APPLICABLE = {}
 
 ALL = ["C%02d" % i for i in range(1, 21)]
